@@ -38,6 +38,29 @@ TSrv == /\ IsEvent("srv")
            /\ cbs' = e.cb
            /\ e.left = 0                 \* exactly the frame was consumed
 
+\* a hostile (faulted) server message: never a panic / hang / oversized allocation; either the client leaves it
+\* without effect (state, wire, callbacks untouched - whether it answered Ok or Err), or it treats it as SOME
+\* well-formed message, i.e. the step is Srv(m) for a message m of the alphabet with the parameters observed
+HostileCandidates(e) ==
+  LET w == Writes(e)
+      sid == IF Len(w) >= 1 /\ w[1].kind = "ConfirmActive" THEN w[1].shareId ELSE <<>> IN
+       { [kind |-> "DemandActive", shareId |-> sid], [kind |-> "Sync"], [kind |-> "FontMap"], [kind |-> "ErrInfo"],
+         [kind |-> "DeactivateAll"], [kind |-> "UnknownData", t2 |-> 0] }
+  \cup { [kind |-> "Control", action |-> a] : a \in 1..4 }
+  \cup { [kind |-> "FastPath", updates |-> IF e.cb = <<>> THEN <<[t |-> "Other", code |-> 0]>> ELSE <<[t |-> "Bitmap"]>>, rects |-> e.cb] }
+\* every nested 16-bit length field may legitimately ask for a buffer of up to 64 KiB before the read fails;
+\* four nesting levels are the deepest the PDU grammar has
+AllocBound(e) == e.peak <= 4 * 65536 + 64 * e.sent
+
+THostile == /\ IsEvent("hostile")
+            /\ LET e == Rec[l] IN
+               /\ e.res \in {"ok", "err"}
+               /\ AllocBound(e)
+               /\ \/ /\ e.state = act /\ Writes(e) = <<>> /\ e.cb = <<>>
+                     /\ UNCHANGED <<act, shareId, userId, obs>> /\ out' = <<>> /\ cbs' = <<>> /\ inres' = "none"
+                  \/ \E m \in HostileCandidates(e) :
+                        /\ Srv(m) /\ act' = e.state /\ out' = Writes(e) /\ cbs' = e.cb
+
 TInput == /\ IsEvent("input")
           /\ LET e == Rec[l] IN
              /\ Input(e.e, e.api = "try_write")
